@@ -33,8 +33,17 @@ impl Link {
 
     pub fn from_pd_code<I>(pd_code: I) -> Self
     where I: IntoIterator<Item = XCode> { 
-        // TODO validate code
-        let data = pd_code.into_iter().map(Crossing::from_pd_code).collect();
+        let data: Vec<Crossing> = pd_code.into_iter().map(Crossing::from_pd_code).collect();
+
+        // An edge joins at most two crossing-ends; otherwise traversing the diagram never terminates.
+        let mut count = std::collections::BTreeMap::new();
+        for &e in data.iter().flat_map(|x| x.edges()) { 
+            *count.entry(e).or_insert(0usize) += 1;
+        }
+        if let Some((e, n)) = count.iter().find(|(_, &n)| n > 2) { 
+            panic!("invalid pd-code: edge {e} appears {n} times.");
+        }
+
         Self::new(data)
     }
 
